@@ -172,7 +172,10 @@ def parser_table(ck, prog):
             while isinstance(c, NotC):
                 c, t = c.c, not t
             if not (isinstance(c, Cmp) and c.op in ('==', '!=')):
-                raise AnalysisError('parser: unrecognised branch condition %r' % (c,))
+                # a guard that is not a suffix test (e.g. a fast path): the path is still judged
+                # by what it returns / raises
+                ck.saw('parser_other_guards', repr(c)[:200])
+                continue
             if c.op == '!=':
                 t = not t
             a, b = c.a, c.b
